@@ -41,7 +41,13 @@ pub struct SchedSpec {
 
 impl SchedSpec {
     pub fn trace(trace: Vec<u32>) -> Self {
-        SchedSpec { policy: "trace".into(), seed: 0, param: 0, horizon: 0, trace }
+        SchedSpec {
+            policy: "trace".into(),
+            seed: 0,
+            param: 0,
+            horizon: 0,
+            trace,
+        }
     }
 }
 
